@@ -176,6 +176,73 @@ func checkString(s string) *finding {
 	return nil
 }
 
+// checkInterleaved splits s1 and s2 from two readers call by call in alternation.
+func checkInterleaved(s1, s2 string, alone1 []call) *finding {
+	alone2, _ := readAll(s2)
+	for _, c := range append(append([]call{}, alone1...), alone2...) {
+		if c.Panic != "" {
+			return nil // reported by the single-string pass
+		}
+	}
+	r1, r2 := strings.NewReader(s1), strings.NewReader(s2)
+	one := func(rd *strings.Reader) (c call) {
+		defer func() {
+			if p := recover(); p != nil {
+				c.Panic = fmt.Sprint(p)
+			}
+		}()
+		args, eof, err := varutil.ReadArguments(rd)
+		c.Args, c.EOF = args, eof
+		if err != nil {
+			c.Err = err.Error()
+		}
+		return
+	}
+	same := func(a, b call) bool {
+		if a.Err != b.Err || a.EOF != b.EOF || a.Panic != b.Panic || len(a.Args) != len(b.Args) {
+			return false
+		}
+		for i := range a.Args {
+			if a.Args[i] != b.Args[i] {
+				return false
+			}
+		}
+		return true
+	}
+	type kept struct {
+		live []string // the slice as handed out
+		copy []string
+	}
+	var retained []kept
+	i1, i2 := 0, 0
+	for i1 < len(alone1) || i2 < len(alone2) {
+		if i1 < len(alone1) {
+			got := one(r1)
+			if !same(got, alone1[i1]) {
+				return &finding{"interleaved-call-differs", "splitting is a function of the reader's bytes (the next call returns the next command)", fmt.Sprintf("inputs %s and %s split in alternation: call %d on the first returned %+v, alone it returns %+v", q(s1), q(s2), i1+1, got, alone1[i1])}
+			}
+			retained = append(retained, kept{got.Args, append([]string{}, got.Args...)})
+			i1++
+		}
+		if i2 < len(alone2) {
+			got := one(r2)
+			if !same(got, alone2[i2]) {
+				return &finding{"interleaved-call-differs", "splitting is a function of the reader's bytes (the next call returns the next command)", fmt.Sprintf("inputs %s and %s split in alternation: call %d on the second returned %+v, alone it returns %+v", q(s1), q(s2), i2+1, got, alone2[i2])}
+			}
+			retained = append(retained, kept{got.Args, append([]string{}, got.Args...)})
+			i2++
+		}
+	}
+	for _, k := range retained {
+		for i := range k.copy {
+			if k.live[i] != k.copy[i] {
+				return &finding{"returned-arguments-changed-later", "arguments come back unchanged", fmt.Sprintf("inputs %s and %s: an argument list handed out earlier changed from %q to %q", q(s1), q(s2), k.copy, k.live)}
+			}
+		}
+	}
+	return nil
+}
+
 // checkSplitAgrees: SplitArguments(s) must give what the first ReadArguments call on s gives.
 func checkSplitAgrees(s string, first call) *finding {
 	var c call
@@ -452,6 +519,7 @@ func checkHeredoc(body string) *finding {
 type witness struct {
 	Heredoc *string `json:"heredoc_body_hex,omitempty"`
 	Raw    *string  `json:"raw_hex,omitempty"`
+	Pair   []string `json:"interleaved_pair_hex,omitempty"`
 	List   *listWit `json:"list,omitempty"`
 	Inject []string `json:"inject,omitempty"`
 }
@@ -547,6 +615,40 @@ func run(c *fw.Ctx) {
 		}
 		buf = append(buf[:0], b1)
 		rec2()
+	}
+	// A3: two readers split in an interleaved fashion (call 1 on A, call 1 on B, call 2 on A, ...):
+	// every call must return what it returns when each input is split on its own, and arguments
+	// handed out earlier must not change when later calls run (no state shared between calls)
+	var shorts []string
+	var rec3 func(cur []byte)
+	rec3 = func(cur []byte) {
+		shorts = append(shorts, string(cur))
+		if len(cur) == 3 {
+			return
+		}
+		for _, b := range sigma {
+			rec3(append(append([]byte{}, cur...), b))
+		}
+	}
+	rec3(nil)
+	c.R.Info["interleaved_pairs_of_strings_up_to"] = 3
+	for i, s1 := range shorts {
+		item++
+		if !c.Mine(item) {
+			continue
+		}
+		if c.Expired() {
+			c.NotExhaustive("deadline in interleaved pairs")
+			break
+		}
+		alone1, _ := readAll(s1)
+		for _, s2 := range shorts[i:] {
+			c.R.Evaluations++
+			c.Count("interleaved_pairs", 1)
+			if f := checkInterleaved(s1, s2, alone1); f != nil {
+				report(f, witness{Pair: []string{*hexs(s1), *hexs(s2)}})
+			}
+		}
 	}
 	// C: rendered lists
 	n := len(pool)
@@ -651,6 +753,12 @@ func replay(wj json.RawMessage) (*fw.Violation, error) {
 		var b []byte
 		fmt.Sscanf(*w.Heredoc, "%x", &b)
 		f = checkHeredoc(string(b))
+	case len(w.Pair) == 2:
+		var b1, b2 []byte
+		fmt.Sscanf(w.Pair[0], "%x", &b1)
+		fmt.Sscanf(w.Pair[1], "%x", &b2)
+		a1, _ := readAll(string(b1))
+		f = checkInterleaved(string(b1), string(b2), a1)
 	case w.List != nil:
 		f = checkList(*w.List)
 	case w.Inject != nil:
@@ -664,7 +772,7 @@ func replay(wj json.RawMessage) (*fw.Violation, error) {
 
 func init() {
 	fw.Register(&fw.Check{ID: "C17", Level: "exploration",
-		Rule: "ALL byte strings of length <= 7 (quick) / <= 9 (thorough) over the alphabet {space, tab, newline, '\"', backslash, '=', '<', 'a', 0xff}: totality on every one (no panic, terminates, reader drained call by call), SplitArguments agreeing with the first ReadArguments call, and no byte >= 0x80 occurring more often in the arguments than in the input (whatever the context: bare, after a backslash, quoted, heredoc); ALL strings of length <= 4 / <= 5 over the blank-like alphabet {space, tab, 'a', CR, VT, FF, NUL, 0xc2, 0x85, 0xa0, 0xe3, 0x80} (these are word bytes); strings without quote/backslash/heredoc additionally against the plain-word reference (per-line blank-separated fields byte for byte, eof flags); strings whose backslashes precede a letter, another backslash (escaped backslash = word byte) or a continuation newline against the argument-count and line-boundary reference. Plus every argument list of <= 3 arguments from a 14-entry pool rendered in every applicable form (bare, quoted, heredoc) with 4 separators (incl. backslash-newline), followed by a second command; plus InjectArgs mapping on each list; plus every heredoc body of <= 4 (quick) / <= 5 (thorough) symbols over {a, newline, E, O, F, space, 0xff} with marker EOF (bodies ending in empty lines or in a prefix of the marker included). distinct = inputs",
+		Rule: "ALL byte strings of length <= 7 (quick) / <= 9 (thorough) over the alphabet {space, tab, newline, '\"', backslash, '=', '<', 'a', 0xff}: totality on every one (no panic, terminates, reader drained call by call), SplitArguments agreeing with the first ReadArguments call, and no byte >= 0x80 occurring more often in the arguments than in the input (whatever the context: bare, after a backslash, quoted, heredoc); ALL strings of length <= 4 / <= 5 over the blank-like alphabet {space, tab, 'a', CR, VT, FF, NUL, 0xc2, 0x85, 0xa0, 0xe3, 0x80} (these are word bytes); all pairs of strings of length <= 3 split from two readers in alternation (each call as when split alone; arguments handed out earlier never change); strings without quote/backslash/heredoc additionally against the plain-word reference (per-line blank-separated fields byte for byte, eof flags); strings whose backslashes precede a letter, another backslash (escaped backslash = word byte) or a continuation newline against the argument-count and line-boundary reference. Plus every argument list of <= 3 arguments from a 14-entry pool rendered in every applicable form (bare, quoted, heredoc) with 4 separators (incl. backslash-newline), followed by a second command; plus InjectArgs mapping on each list; plus every heredoc body of <= 4 (quick) / <= 5 (thorough) symbols over {a, newline, E, O, F, space, 0xff} with marker EOF (bodies ending in empty lines or in a prefix of the marker included). distinct = inputs",
 		Run: run, Replay: replay,
 		Assumptions: []string{"length bound as stated; the 'randomly beyond' part is not claimed", "content of words containing a bare backslash is unspecified (only totality and argument count are required)", "an empty heredoc body cannot be rendered by the reference quoting (text must be non-empty)"}})
 }
